@@ -17,17 +17,19 @@ for m in sorted(glob.glob(os.path.join(V, "seeded", "C*", "*", "meta.json"))):
     title = d["title"].replace("|", "/")
     title = re.sub(r"^(C\d\d\s*/?\s*)?[Cc]hange\s*\d\s*[—–-]+\s*", "", title)
     rows.append("| %s/%s | %s | %s |" % (d["property"], d["change"], title[:110], "; ".join(by) if by else "— (not caught)"))
-table = ("Fresh sub-agents, each given only one property's text and a scratch worktree (in the second round also one line per "
-         "change of the first round, to steer them elsewhere), produced %d changes that break the property, still compile and pass "
-         "the 80 tests; each was confirmed here in a scratch worktree (demo passes on the pristine build, fails on the patched "
-         "one, ctest 80/80 with the patch) and is kept under `seeded/<id>/<change>/` (patch.diff, demo.cpp, README.md, meta.json; "
-         "`r2-` marks the second round). Every claimed check was then run against each patched tree (`tools/matrix.py`, scratch "
-         "worktree, `--root`): **%d of %d are reported**. About half of those only after the rule they motivated was added "
-         "(C02.c, C02.a/names, C03.d, C04.e, C05.f, C05.g, C06.e, C06.f, C06.g, C07.c, C09.c, C09.d, C10.c, C10.d, C11.f, C12.g, "
-         "C14.f, C15.e, C15.f, C16.e, C18.c, C18.d, C19.d/decl, C20.g were written because a seeded change slipped through), each "
-         "formulated as a necessary condition of the property over the whole library or all sibling sites, not as a match of the "
-         "patch; a check listed for a change of another property reports it because the change breaks that property's rule "
-         "too.\n\n| change | what it does | reported by |\n|---|---|---|\n" % (total, caught, total)
+table = ("Fresh sub-agents, each given only one property's text and a scratch worktree (from the second round on also one line per "
+         "earlier change for that property, to steer them elsewhere), produced %d changes in three rounds (all 20 properties twice, the "
+         "ten most value-level ones a third time) that break the property, still compile and pass the 80 tests; each was confirmed "
+         "here in a scratch worktree (demo passes on the pristine build, fails on the patched one, ctest 80/80 with the patch) and is "
+         "kept under `seeded/<id>/<change>/` (patch.diff, demo.cpp, README.md, meta.json; `r2-` / `r3-` mark the later rounds). Every "
+         "claimed check was then run against each patched tree (`tools/matrix.py`, scratch worktree, `--root`): **%d of %d are "
+         "reported**. More than half of those only after the rule they motivated was added (C01.g, C01.h, C02.c, C02.d, C02.a/names, "
+         "C03.d, C03.f, C03.g, C04.e, C04.f, C04.g, C05.f, C05.g, C06.e, C06.f, C06.g, C06.h, C07.c, C07.d, C09.c, C09.d, C09.e, C09.f, "
+         "C10.c, C10.d, C11.f, C12.g, C12.k, C12.l, C13.g, C14.f, C15.e-i, C16.e, C16.e/template, C16.g, C17.e, C18.c, C18.d, C18.e, "
+         "C19.d/decl, C20.b/unpaired-pop, C20.g were written because a seeded change slipped through), each formulated as a necessary "
+         "condition of the property over the whole library or all sibling sites, not as a match of the patch; a check listed for a "
+         "change of another property reports it because the change breaks that property's rule too. Writing these rules also turned "
+         "up six of the genuine defects of section 0.4.\n\n| change | what it does | reported by |\n|---|---|---|\n" % (total, caught, total)
          + "\n".join(rows))
 status = open(os.path.join(V, "tools", "design_status.md")).read().replace("@@SEEDED@@", table)
 p = os.path.join(V, "DESIGN.md")
